@@ -536,12 +536,16 @@ def classify(kind, await_all, nd, hist, r):
             if own != hist:
                 r2 = Run(kind, await_all, own, nd)
                 if not r2.viol:
-                    s_started = set()
+                    own_open = {}
+                    own_last = {}
                     shared_ok = False
                     for e in hist:
-                        if len(e) == 3 and e[1] == 'S' and e[0] == 'U':
-                            s_started.add(e[2])
-                        if len(e) == 3 and e[1] == 'F' and e[0] == 'OK' and e[2] in s_started:
+                        if len(e) == 3 and e[1] == 'S' and e[0] in ('U', 'OK', 'FAIL'):
+                            own_last[e[2]] = e[0]
+                            own_open[e[2]] = own_open.get(e[2], 0) + (1 if e[0] == 'U' else -1)
+                        # the known mechanism: the foreign confirmation is taken for ours on a directory where an upload of our
+                        # own is unresolved or has failed (where ours are all confirmed it changes nothing on HEAD)
+                        if len(e) == 3 and e[1] == 'F' and e[0] == 'OK' and (own_open.get(e[2], 0) > 0 or own_last.get(e[2]) == 'FAIL'):
                             shared_ok = True
                     if shared_ok:
                         out.append(('foreign-upload-to-shared-directory-counted', kind, detail))
